@@ -14,6 +14,10 @@ ASSUMPTIONS = ["each assertion is executed twice on the real code over p = 97 (b
                "declarations made by unpacking (PackIntMod.unpack on raw secret bits declares 0 <= value < mod): executed through "
                "harness/worker_pack.py (mode unpack-raw) with checks on and off, same three-way comparison; on the large fields the recorded "
                "witness stands in for the search",
+               "the same for COMPOSITE schemas (PackList / PackRepeat / nested, 2-5 leaves) whose leaf segments in the bit list are plain "
+               "Python ints or raw secrets independently of each other (public leaves first and a secret integer field later, secret first, "
+               "a secret field between public ones, random, all-plain / all-secret controls): every secret PackIntMod leaf is declared "
+               "0 <= value < mod wherever it sits; plain leaves declare nothing on unpack; model-compared through the same K|..|U line (`i:b` bits)",
                "the witness search splits the system into the connected components of its free wires and tries the recorded witness first "
                "in each component (harness/solve.py satisfiable(): complete whenever it returns)",
                "the asserted relation is also evaluated independently from the property text (equal, not equal, <, <=, >, >=, zero, "
@@ -175,7 +179,7 @@ def sat_job(job):
 def explore(ctx, extended=False, focus=None):
     ex = Exploration()
     ex.rule = ("every assertion kind (eq, ne, lt, le, gt, ge, zero, non-zero, non-negative with default and explicit width, range, "
-               "boolean declaration, n-bit declaration, unpacking of raw secret bits modulo m; integer, boolean and fixed-point receivers; "
+               "boolean declaration, n-bit declaration, unpacking of raw secret bits modulo m alone and inside composite schemas next to plain (public) leaves in every order; integer, boolean and fixed-point receivers; "
                "secret and constant right operands; operand fresh or already split into bits earlier in the program) on operand values on both sides of the relation and at its boundaries; per case: accepted by the run-time "
                "check? / emitted system satisfiable with the operands fixed? / relation true?; distinct = (kind, bitlength, operands)")
     n = ctx.n(1200, 32000) * (3 if extended else 1)
@@ -372,6 +376,86 @@ def gen_unpack_job(rnd, small):
     return {"schema": s, "bits": bits, "mode": "unpack-raw", "p": P if small else common.BN128, "bl": bl, "vals": vals}
 
 
+MIXED_LAYOUTS = ["plain-leaf-first", "plain-leaf-first", "plain-leaf-first", "secret-leaf-first", "secret-leaf-first",
+                 "plain-leaves-around", "random", "all-plain", "all-secret"]
+
+
+def _nest(s, it):
+    """the flat list of leaf values `it` (an iterator) in the structure `unpack` returns for schema s"""
+    if s[0] in ("B", "M"): return next(it)
+    if s[0] == "L": return [_nest(x, it) for x in s[1]]
+    return [_nest(s[1], it) for _ in range(s[2])]
+
+
+def gen_unpack_mixed_job(rnd, small, k):
+    """a COMPOSITE packer schema (PackList / PackRepeat / nested, 2-5 leaves) and a bit list whose leaf segments are plain
+    Python ints or raw secrets INDEPENDENTLY of each other: public leaves first and a secret integer field later (a record with
+    a public header), secret first and public later, a secret field between public ones, random masks, and the all-plain /
+    all-secret controls.  Every SECRET PackIntMod leaf is declared 0 <= value < mod wherever it sits in the list and whatever
+    precedes it; plain leaves declare nothing on unpack (their range is checked by `pack`).  Moduli of the secret leaves are
+    mostly not powers of two; values mod-1, mod, mod+1, 0, 2^n-1, random."""
+    bl = rnd.choice([3, 4, 4, 5]) if small else rnd.choice([8, 16, 32])
+    top = 1 << bl
+    def field(boolean_ok=True):
+        c = rnd.random()
+        if boolean_ok and c < 0.15:
+            return ["B"]
+        if c < 0.8:                                             # not a power of two: the bits can encode values >= mod
+            m = rnd.choice([3, 5, 6, 7, 9, 10, 11, 12, 13, 14, 15, 17, 20, 24, 31] if small else [3, 5, 6, 10, 12, 13, 100, 255, 257, 1000, 40000])
+            while m > top: m = m // 2 + 1
+        elif c < 0.93:
+            m = 1 << rnd.randrange(1, min(bl, 15) + 1)
+        else:                                                   # wider than the bitlength: mod - v - 1 may not fit
+            m = rnd.choice([top + 1, top + 3]) if small else rnd.choice([top + 1, 3 * top])
+        return ["M", max(m, 3)]
+    shape = rnd.choice(["L", "L", "L", "L3", "R", "LL", "LR", "RL"])
+    if shape == "L": s = ["L", [field(), field(False)]]
+    elif shape == "L3": s = ["L", [field(), field(), field(False)] + ([field()] if rnd.random() < 0.3 else [])]
+    elif shape == "R": s = ["R", field(False), rnd.choice([2, 3])]
+    elif shape == "LL": s = ["L", [["L", [field(), field()]], field(False)] if rnd.random() < 0.5 else [field(), ["L", [field(False), field()]]]]
+    elif shape == "LR": s = ["L", [["R", field(), 2], field(False)] if rnd.random() < 0.5 else [field(), ["R", field(False), 2]]]
+    else: s = ["R", ["L", [field(), field(False)]], 2]
+    fields = _fields(s)
+    nf = len(fields)
+    ints = [i for i, f in enumerate(fields) if f[0] == "M"]
+    layout = MIXED_LAYOUTS[k % len(MIXED_LAYOUTS)]
+    if layout == "plain-leaf-first":                            # public header, then at least one secret integer field
+        mask = [0] + [rnd.choice([0, 1]) for _ in range(nf - 1)]
+        later = [i for i in ints if i > 0]
+        mask[rnd.choice(later)] = 1
+    elif layout == "secret-leaf-first":
+        mask = [1] + [rnd.choice([0, 1]) for _ in range(nf - 1)]
+        mask[rnd.randrange(1, nf)] = 0
+    elif layout == "plain-leaves-around":                       # one secret integer field, everything else public
+        mask = [0] * nf
+        mask[rnd.choice(ints)] = 1
+    elif layout == "random":
+        mask = [rnd.choice([0, 1]) for _ in range(nf)]
+    else:
+        mask = [0 if layout == "all-plain" else 1] * nf
+    secret_ints = [i for i in ints if mask[i]]
+    # at most one secret field out of range per job (so that the verdict names it), in 60% of the jobs
+    out = rnd.choice(secret_ints) if secret_ints and rnd.random() < 0.6 else None
+    vals = []; bits = []
+    for i, (f, sec) in enumerate(zip(fields, mask)):
+        if f[0] == "B":
+            v = rnd.choice([0, 1]); n = 1
+        else:
+            m = f[1]; n = (m - 1).bit_length(); full = (1 << n) - 1
+            if i == out:
+                v = rnd.choice([m, m, m + 1, full, rnd.randrange(m, full + 1) if m <= full else m])
+            elif sec or rnd.random() < 0.8:
+                v = rnd.choice([m - 1, m - 1, 0, 1, rnd.randrange(0, m)])
+            else:                                               # a public leaf spelling a number >= mod: nothing is declared about it
+                v = rnd.choice([m, full])
+            v = max(0, min(v, full))
+        vals.append(v); bits += [f"{'L' if sec else 'i'}:{(v >> b) & 1}" for b in range(n)]
+    if rnd.random() < 0.1:
+        bits.append(rnd.choice(["L:1", "i:1"]))                 # a trailing bit that belongs to nobody
+    return {"schema": s, "bits": bits, "mode": "unpack-raw", "p": P if small else common.BN128, "bl": bl, "vals": vals,
+            "mask": mask, "layout": layout}
+
+
 def unpack_job(job):
     cons, fixed, unknown, p, hint = job
     try:
@@ -389,6 +473,8 @@ def unpack_secret_bits(ctx, ex, extended):
     rnd = ctx.rnd
     n = ctx.n(300, 6000) * (2 if extended else 1)
     jobs = [gen_unpack_job(rnd, small=(i % 3 != 2)) for i in range(n)]
+    # composite schemas whose leaf segments are plain ints or raw secrets independently (public header + secret field, ...)
+    jobs += [gen_unpack_mixed_job(rnd, small=(i % 4 != 3), k=i) for i in range(ctx.n(270, 5400) * (2 if extended else 1))]
     lines = []; mlines = []
     for i, j in enumerate(jobs):
         for ign in (0, 1):
@@ -426,7 +512,8 @@ def unpack_secret_bits(ctx, ex, extended):
         bl = j["bl"]; fields = _fields(j["schema"])
         ex.distinct.add(("unpack", _schema_str(j["schema"]), tuple(j["vals"]), bl))
         fits = lambda v: 0 <= v < (1 << bl)
-        mf = [(f, v) for f, v in zip(fields, j["vals"]) if f[0] == "M"]
+        mask = j.get("mask") or [1] * len(fields)               # which leaves are handed over as secret bits
+        mf = [(f, v) for f, v, sec in zip(fields, j["vals"], mask) if f[0] == "M" and sec]   # plain leaves declare nothing
         bad = [(f, v) for f, v in mf if not v < f[1]]
         rel = not bad                                           # the declared relation: 0 <= value < mod for every field
         # the comparison is made at the global bitlength: a modulus wider than that may be refused although in range
@@ -435,12 +522,23 @@ def unpack_secret_bits(ctx, ex, extended):
         mclass = "no-integer-field" if f0[1] == 0 else "above-bitlength" if f0[1] > (1 << bl) else "power-of-two" if f0[1] & (f0[1] - 1) == 0 else "not-a-power-of-two"
         vclass = "below" if v0 < f0[1] else "equal-to-modulus" if v0 == f0[1] else "above"
         sig = {"assertion": "unpack", "bits": "secret-raw", "modulus": mclass, "value": vclass, "field": "small" if j["p"] == P else "large"}
-        rep = {"job": {k: j[k] for k in ("schema", "bits", "mode", "p", "bl")}, "field_values": j["vals"], "relation_true": rel,
+        if "mask" in j:
+            sig["bits"] = "all-plain" if not any(mask) else "secret-raw-composite" if all(mask) else \
+                          "plain-leaves-then-secret" if not mask[0] else "secret-leaves-then-plain"
+            ex.count(f"unpack-mixed:{j['layout']}:{sig['bits']}:{'in-range' if rel else 'out-of-range'}")
+        rep = {"job": {k: j[k] for k in ("schema", "bits", "mode", "p", "bl", "mask") if k in j}, "field_values": j["vals"], "relation_true": rel,
                "checks_on": {k: on.get(k) for k in ("unpack", "back")}, "checks_off": {k: off.get(k) for k in ("unpack", "back", "unsat")}}
         what = f"PackIntMod.unpack on raw secret bits, schema {_schema_str(j['schema'])}, field values {j['vals']}, bitlength {bl}"
+        if "mask" in j:
+            what = (f"unpack of a bit list whose leaf segments are plain ints / raw secret bits (leaves secret: {mask}), schema "
+                    f"{_schema_str(j['schema'])}, field values {j['vals']}, bitlength {bl}")
         accepted = on["unpack"] == "ok"
         ex.count(f"unpack:{mclass}:{vclass}:{'acc' if accepted else 'rej:' + on['unpack']}")
         if not accepted and on["unpack"] not in ("AssertionError", "ValueError"):
+            if rel and not narrow and len(j["bits"]) >= len(sum(([0] * (1 if f[0] == "B" else (f[1] - 1).bit_length()) for f in fields), [])):
+                # not a verdict on the relation: unpack broke down on a complete bit list all of whose declarations hold
+                ex.violations.append(Violation(dict(sig, dev="unpack-raises", error=on["unpack"]),
+                                               f"{what}: unpack raises {on['unpack']} although 0 <= value < mod for every secret field", rep))
             continue
         if accepted and not rel:
             ex.violations.append(Violation(dict(sig, dev="runtime-relation-differs"),
@@ -449,7 +547,7 @@ def unpack_secret_bits(ctx, ex, extended):
             ex.violations.append(Violation(dict(sig, dev="runtime-relation-differs"),
                                            f"{what}: the run-time check rejects ({on['unpack']}) although 0 <= value < mod for every field", rep))
         if accepted:
-            want = j["vals"][0] if j["schema"][0] == "M" else j["vals"]
+            want = _nest(j["schema"], iter(j["vals"]))
             if on["back"] != want:
                 ex.violations.append(Violation(dict(sig, dev="unpacked-value"), f"{what}: unpack returned {on['back']}", rep))
         if off["unpack"] != "ok":
@@ -465,7 +563,8 @@ def unpack_secret_bits(ctx, ex, extended):
               "traced with error checking off, every emitted constraint holds on the recorded witness"
         if sat and not rel:
             ex.violations.append(Violation(dict(sig, dev="satisfiable-out-of-range"),
-                                           f"{what}: {how} although field {_schema_str(f0)} holds {v0}: the circuit does not enforce value < mod", rep))
+                                           f"{what}: {how} although {'secret ' if 'mask' in j else ''}field {_schema_str(f0)} holds {v0}: "
+                                           f"the circuit does not enforce value < mod", rep))
         if rel and not narrow and not sat:
             ex.violations.append(Violation(dict(sig, dev="accepted-but-unsatisfiable"),
                                            f"{what}: in range, but the emitted system is not satisfied / satisfiable", rep))
